@@ -382,6 +382,8 @@ def c01(tier):
     ck.cov["distinct_nontrivial"] = stats["classes"]
     ck.cov["rule"] = "every accepted (field configuration, comparison-trait set) x shapes x entry points; all ordered value pairs; distinct = distinct generated impl token classes actually compiled and run"
     ck.cov["exhaustive"] = True
+    import checks_life
+    checks_life.life_stage(ck, tier, ["C01"], tag="life_c01")
     return ck.finish()
 
 
@@ -411,6 +413,8 @@ def c06(tier):
     ck.cov["distinct_nontrivial"] = stats["classes"]
     ck.cov["rule"] = "every accepted (field configuration, trait set containing Hash) x shapes x entry points; all values; feed = byte sequence written to a recording Hasher"
     ck.cov["exhaustive"] = True
+    import checks_life
+    checks_life.life_stage(ck, tier, ["C06"], tag="life_c06")
     return ck.finish()
 
 
@@ -519,6 +523,8 @@ def c02(tier):
     ck.cov["distinct_nontrivial"] = stats["classes"]
     ck.cov["rule"] = "every configuration the REAL expander accepts, all key/by functions expressing one key; laws evaluated on the real impls over all pairs and triples"
     ck.cov["exhaustive"] = True
+    import checks_life
+    checks_life.life_stage(ck, tier, ["C01", "C06"], tag="life_c02", coherent_only=True)
     return ck.finish()
 
 
